@@ -493,7 +493,17 @@ func (x *runner) step(o op) {
 		n.Queue.Expire(time.Now().Add(time.Duration(o.Ms) * time.Millisecond))
 		x.settle()
 	case "gossip":
-		x.gossip = o.Mode
+		// auto: deliver everything in order after every step; hold: deliver nothing; reverse: deliver everything, newest first
+		switch o.Mode {
+		case "reverse":
+			w.Reverse = true
+			x.gossip = "auto"
+		case "auto":
+			w.Reverse = false
+			x.gossip = "auto"
+		default:
+			x.gossip = o.Mode
+		}
 	case "collect":
 		w.Collect()
 	case "deliver":
